@@ -72,13 +72,16 @@ func TestVerifC02(t *testing.T) {
 	methods := []string{"GET", "POST", "PUT", "DELETE", "PATCH", "OPTIONS", "FOO", "PROPFIND", "HEAD"}
 	paths := []string{"/", "/a", "/a/b/c", "/a%2Fb/c%20d", "/%25", "//double/./x/../y", "/caf%C3%A9", "/a;b", "/*", "/trailing/", "/UPPER/lower", "/a+b", "/~user", "/a%2fb"}
 	queries := []string{"", "?", "?x=1", "?x=1&y=%26&z", "?a=b&a=c", "?q=%E2%9C%93", "?empty=", "?k", "?x=a+b", "?x=%20%2B"}
-	e2eNames := []string{"Accept", "X-Multi", "X-Custom-Header", "Cookie", "Accept-Language", "x-lower", "X-MIXED-case", "Cache-Control", "If-None-Match", "Range", "Accept-Encoding", "User-Agent", "X-Forwarded-For", "Via", "Referer", "Origin"}
+	e2eNames := []string{"Accept", "X-Multi", "X-Custom-Header", "Cookie", "Accept-Language", "x-lower", "X-MIXED-case", "Cache-Control", "If-None-Match", "Range", "Accept-Encoding", "User-Agent", "X-Forwarded-For", "Via", "Referer", "Origin",
+		"Proxy-Status", "Proxy-Custom", "Connection-Info", "Keep-Alive-Hint", "Te-Deum", "Trailers", "Upgrade-Insecure-Requests", "X-Forwarded-Host", "X-Forwarded-Proto", "Forwarded"}
 	hopNames := []string{"Connection", "Keep-Alive", "Proxy-Authenticate", "Proxy-Authorization", "TE", "Trailer", "Upgrade", "Proxy-Connection"}
 	anyVal := []string{"v1", "", "a, b;q=0.5", "x=1; y=2", strings.Repeat("z", 100), "v2"}
 	valuePools := map[string][]string{
 		"Accept": {"*/*", "text/html, application/json;q=0.9", "image/*"}, "X-Multi": anyVal, "X-Custom-Header": anyVal, "x-lower": anyVal, "X-MIXED-case": anyVal,
 		"Cookie": {"a=1; b=2", "sid=xyz"}, "Accept-Language": {"en", "de-CH, fr;q=0.5"}, "Cache-Control": {"no-cache", "max-age=0"}, "If-None-Match": {"\"abc\"", "W/\"x\""},
 		"Range": {"bytes=0-10"}, "Accept-Encoding": {"gzip", "identity", "gzip, deflate", "br"}, "User-Agent": {"Mozilla/5.0 (X11)", "curl/8.0"},
+		"Proxy-Status": anyVal, "Proxy-Custom": anyVal, "Connection-Info": anyVal, "Keep-Alive-Hint": anyVal, "Te-Deum": anyVal, "Trailers": anyVal, "Upgrade-Insecure-Requests": {"1"},
+		"X-Forwarded-Host": {"front.example"}, "X-Forwarded-Proto": {"https"}, "Forwarded": {"for=10.0.0.1;proto=https"},
 		"X-Forwarded-For": {"10.0.0.1", "10.0.0.1, 10.0.0.2"}, "Via": {"1.1 edge"}, "Referer": {"http://verif.example/from"}, "Origin": {"http://verif.example"},
 	}
 	singleton := map[string]bool{"User-Agent": true, "Referer": true, "Origin": true, "Range": true, "Cookie": true, "If-None-Match": true}
